@@ -277,6 +277,8 @@ def bounded_by_var(f, idx, at, length):
 
 
 # environment variables documented for each default (README / docs: MYTH_WORKER_NUM is the superseded spelling)
+# decimal parsers with a signed result (strtoul would turn the <= 0 test into == 0)
+PARSERS = ('atoi', 'atol', 'atoll', 'strtol', 'strtoll')
 ENVNAMES = {'myth_globalattr_default_stacksize': ['MYTH_DEF_STKSIZE'], 'myth_globalattr_default_guardsize': ['MYTH_DEF_GUARDSIZE'],
             'myth_globalattr_default_num_workers': ['MYTH_NUM_WORKERS', 'MYTH_WORKER_NUM']}
 
@@ -286,12 +288,12 @@ def rule4_signed(ctx, fl):
             'is a signed comparison (sle 0 / slt 1) on the sign-extended atoi result, and the parsed value is returned only on '
             'its false edge')
     v = ctx.view(INITF, roots=['myth_globalattr_default_stacksize', 'myth_globalattr_default_guardsize',
-                               'myth_globalattr_default_num_workers'], stops=('getenv', 'atoi', 'fprintf', 'myth_get_n_available_cpus'),
+                               'myth_globalattr_default_num_workers'], stops=('getenv',) + PARSERS + ('fprintf', 'myth_get_n_available_cpus'),
                  flavour=fl)
     for name in ('myth_globalattr_default_stacksize', 'myth_globalattr_default_guardsize', 'myth_globalattr_default_num_workers'):
         f = ctx.need_fn(v, name)
-        at = call_sites(f, 'atoi')
-        ctx.ob('C15.4', name + ': parses with atoi', len(at) >= 1, 'atoi call present', loc=f.loc)
+        at = call_sites(f, PARSERS)
+        ctx.ob('C15.4', name + ': parses with atoi', len(at) >= 1, 'atoi / strtol call present (signed result)', loc=f.loc)
         atv = set(a.id for a in at)
         tests = []
         for ic in f.order:
